@@ -72,3 +72,124 @@ def replay_s(payload: Dict[str, Any], check: Callable[[str, Dict[str, Any]], Tup
             return 1
     print("NOT-REPRODUCED")
     return 0
+
+
+# ---------------------------------------------------------------------------------------------
+# family D: programs whose governed checks are drawn from given atom alphabets
+# ---------------------------------------------------------------------------------------------
+
+from vlib import tealgen as tg  # noqa: E402
+
+
+def family_d(
+    quick: bool,
+    seed: int,
+    atoms_full: List[Any],
+    atoms_small: List[Any],
+    shape_atoms: List[Any],
+    layout_atoms: List[Any],
+    pair_atoms: Tuple[List[Any], List[Any]] = ([], []),
+    pre: Tuple = (),
+    with_corpus: bool = True,
+    thorough_budget: int = 4,
+    quick_cap: int = 2500,
+    unroll3_slice: bool = True,
+) -> List[Tuple[str, str, Dict[str, Any]]]:
+    """The generic bounded-exhaustive family (DESIGN.md section 3).
+
+    (a) one-check programs over ``atoms_full`` x 4 consumers           (exhaustive core)
+    (b) condition trees (depth <= 2) around ``atoms_small``
+    (d) all statement shapes with <= 3 statements, one governed hole from ``shape_atoms``
+    (e) hand-written layouts around ``layout_atoms``
+    (g) two governed checks on one path (``pair_atoms``)
+    (h) the repository's own contracts
+    (f) thorough only (quick: seed-selected 1/16 slice): shapes with <= 4 statements, two governed holes
+    ``pre`` = statements put in front of every generated main (e.g. a gtxn read).
+    """
+    progs: List[Tuple[str, str, Dict[str, Any]]] = []
+
+    def add(name: str, p: Any, spec: Dict[str, Any] = None) -> None:  # type: ignore[assignment]
+        try:
+            src = p if isinstance(p, str) else tg.emit(p)
+        except ValueError:
+            return
+        progs.append((name, src, spec or {}))
+
+    def withpre(p: Any) -> Any:
+        if not pre:
+            return p
+        return tg.Program(tuple(pre) + tuple(p.main), p.subs, p.version, p.subs_first)
+
+    for name, p in tg.one_check_programs(atoms_full):
+        add("a/" + name, withpre(p))
+    for i, a in enumerate(atoms_small):
+        for j, cv in enumerate(tg.cond_variants(a, 2)[1:]):
+            for how in ("assert", "bz_reject") if quick else ("assert", "bz_reject", "bnz_ok", "return"):
+                main = (tg.Check(cv, how),) + (() if how == "return" else (tg.Exit("approve"),))
+                add(f"b/{i}-{j}-{how}", withpre(tg.Program(main)))
+    for name, p in tg.shape_programs(3, shape_atoms, 1):
+        add("d/" + name, withpre(p))
+    for k, a in enumerate(layout_atoms):
+        for name, src in tg.layout_programs(a):
+            add(f"e/{name}/{k}", src)
+    for i, a in enumerate(pair_atoms[0]):
+        for j, b in enumerate(pair_atoms[1]):
+            add(f"g/{i}-{j}", withpre(tg.Program((tg.Check(a, "assert"), tg.Check(b, "bz_reject"), tg.Exit("approve")))))
+            add(f"g2/{i}-{j}", withpre(tg.Program((tg.If(a, (tg.Check(b, "assert"), tg.Exit("approve")), (tg.Exit("approve"),), "bz"),))))
+    if with_corpus:
+        for name, src in corpus():
+            add("h/" + name, src)
+    extra: List[Tuple[str, str, Dict[str, Any]]] = []
+    for name, p in tg.shape_programs(thorough_budget, shape_atoms[:2], 1):
+        try:
+            extra.append(("f/" + name, tg.emit(withpre(p)), {}))
+        except ValueError:
+            pass
+    for name, p in tg.shape_programs(3, shape_atoms[:2], 2, with_subs=True):
+        try:
+            extra.append(("f2/" + name, tg.emit(withpre(p)), {}))
+        except ValueError:
+            pass
+    if quick:
+        extra = tg.slice_of(extra, seed, 16)[:quick_cap]
+    elif unroll3_slice:
+        for name, src, _ in tg.slice_of(progs, 3, 16):
+            extra.append((name + "/k3", src, {"unroll": 3}))
+    return progs + extra
+
+
+def merge_stats(s1: Any, s2: Any) -> Any:
+    s1.paths += s2.paths
+    s1.accepting += s2.accepting
+    s1.cut += s2.cut
+    for k in s1.queries:
+        s1.queries[k] += s2.queries[k]
+    s1.solver_s += s2.solver_s
+    s1.tealer_s += s2.tealer_s
+    s1.nontrivial = s1.nontrivial or s2.nontrivial
+    if s2.skipped and not s1.skipped:
+        s1.skipped = s2.skipped
+    return s1
+
+
+def s_evidence(prop: str, level: str, cov: Dict[str, Any], kcounts: Dict[str, int], kres: List[Any], rule: str,
+               functions: List[Any], bounds: Dict[str, Any], assumptions: List[str]) -> Dict[str, Any]:
+    from vlib.tealerio import source_sha, tree_sha
+
+    return {
+        "property_id": prop,
+        "level": level,
+        "coverage": {
+            **cov,
+            "evaluations": cov.get("programs", 0) + kcounts.get("obligations", 0),
+            "distinct_nontrivial": cov.get("nontrivial_programs", 0) + kcounts.get("confirmed", 0),
+            "rule": rule,
+            "exhaustive": False,
+            "k_obligations": kcounts,
+            "k_samples": [{"harness": r.name, "verdict": r.verdict, "seconds": round(r.seconds, 1), "meta": r.meta} for r in kres[:6]],
+            "functions_encoded": source_sha(functions),
+            "bounds": bounds,
+            "tealer_tree": tree_sha(),
+        },
+        "assumptions": assumptions,
+    }
